@@ -111,6 +111,26 @@ def main(tier, seed, replay=None):
                 nontrivial.add(cmd)
             if len(samples) < 2:
                 samples.append({"manifest": "\n".join(lines)[:400], "j": j})
+        # ---- A2. multi-step / multi-invocation sequences around directories and response files ----
+        d = os.path.join(base, "seq")
+        os.makedirs(d)
+        man = ("rule w\n  command = echo x > $out\nrule clean\n  command = rm -rf stage; echo done > $out\n"
+               "rule rsp\n  command = cat $out.rsp > $out\n  rspfile = $out.rsp\n  rspfile_content = $content\n"
+               "build stage/a: w\nbuild cleaned: clean stage/a\nbuild stage/sub/c: w cleaned\n"
+               "build r.out: rsp\n  content = %s\n")
+        open(os.path.join(d, "build.ninja"), "w").write(man % "alpha.o beta.o gamma_long_name.o")
+        rc, so, se = run_n2(n2, d, ["-j", "1"])
+        where = {"project": "dir removed by an earlier command of the same invocation; response file that shrinks", "stdout": so.decode("utf-8", "replace")[-400:], "rc": rc}
+        stats["commands"] += 4
+        if rc != 0 or not os.path.exists(os.path.join(d, "stage/sub/c")):
+            run.report_failure(None, "the output directory of a step did not exist when its command started (an earlier command had removed it)", where)
+        open(os.path.join(d, "build.ninja"), "w").write(man % "alpha.o")
+        rc, so, se = run_n2(n2, d, ["-j", "1", "r.out"])
+        got = open(os.path.join(d, "r.out")).read() if os.path.exists(os.path.join(d, "r.out")) else None
+        if rc != 0 or got != "alpha.o":
+            run.report_failure(None, "response file content after it became shorter: %r, expected %r" % (got, "alpha.o"),
+                               dict(where, stdout=so.decode("utf-8", "replace")[-300:], rc=rc))
+        nontrivial.add("a2-seq")
         # ---- B. output capture: sizes around the 4 KiB read buffer and the 64 KiB pipe ---
         sizes = [0, 1, 4095, 4096, 4097, 8192, 65535, 65536, 65537, 100000]
         if tier == "thorough":
